@@ -15,6 +15,7 @@ import (
 	"encoding/base64"
 	"encoding/hex"
 	"encoding/json"
+	"errors"
 	"fmt"
 	"math/big"
 	"math/rand"
@@ -26,6 +27,7 @@ import (
 	"github.com/nuts-foundation/go-did/did"
 	"github.com/nuts-foundation/nuts-node/crypto/hash"
 	"github.com/nuts-foundation/nuts-node/vdr/didjwk"
+	"github.com/nuts-foundation/nuts-node/vdr/resolver"
 )
 
 type wJwkLib struct {
@@ -273,4 +275,110 @@ func wJwkSystematic(r *rand.Rand) wOp {
 		}
 	}
 	return wOp{Op: "jwk", M: whx(method), ID: whx(id), Tag: "jwk-systematic:" + shape + ":" + kind}
+}
+
+// ---------- vdr/resolver/did.go as general code: chains of any length, router registrations (scripted member resolvers)
+
+type wStub struct {
+	out   string
+	idx   int
+	asked *[]int
+}
+
+func (s wStub) Resolve(id did.DID, _ *resolver.ResolveMetadata) (*did.Document, *resolver.DocumentMetadata, error) {
+	*s.asked = append(*s.asked, s.idx)
+	switch s.out {
+	case "ok":
+		return &did.Document{ID: id, Service: []did.Service{{Type: fmt.Sprint(s.idx)}}}, &resolver.DocumentMetadata{}, nil
+	case "nf":
+		return nil, nil, resolver.ErrNotFound
+	case "nfw":
+		return nil, nil, fmt.Errorf("lookup of %s: %w", id, resolver.ErrNotFound)
+	case "deact":
+		return nil, nil, resolver.ErrDeactivated
+	case "deactw":
+		return nil, nil, fmt.Errorf("wrapped: %w", resolver.ErrDeactivated)
+	case "noctl":
+		return nil, nil, resolver.ErrNoActiveController
+	case "unsup":
+		return nil, nil, resolver.ErrDIDMethodNotSupported
+	}
+	return nil, nil, errors.New("storage: connection lost")
+}
+
+func wStubResult(doc *did.Document, err error, asked []int) string {
+	seq := true
+	for i, a := range asked {
+		seq = seq && a == i
+	}
+	as := fmt.Sprint(len(asked))
+	if !seq {
+		as = strings.ReplaceAll(fmt.Sprint(asked), " ", ",")
+	}
+	if err == nil {
+		return fmt.Sprintf("ok:%s asked=%s isdeact=false", doc.Service[0].Type, as)
+	}
+	cls := "fail:err"
+	switch msg := err.Error(); {
+	case err == resolver.ErrNotFound:
+		cls = "nf"
+	case errors.Is(err, resolver.ErrNotFound):
+		cls = "nf-wrapped"
+	case strings.Contains(msg, "has been deactivated"):
+		cls = "fail:deact"
+	case strings.Contains(msg, "no active controllers"):
+		cls = "fail:noctl"
+	case strings.Contains(msg, "not supported"):
+		cls = "fail:unsup"
+	}
+	return fmt.Sprintf("%s asked=%s isdeact=%v", cls, as, errors.Is(err, resolver.ErrDeactivated))
+}
+
+func wExecChain(op *wOp) string {
+	var asked []int
+	var c resolver.ChainedDIDResolver
+	for i, o := range op.Outs {
+		c.Resolvers = append(c.Resolvers, wStub{out: o, idx: i, asked: &asked})
+	}
+	doc, _, err := c.Resolve(did.DID{Method: "web", ID: "chain.example"}, nil)
+	return "chain " + wStubResult(doc, err, asked)
+}
+
+func wExecRouter(op *wOp) string {
+	var asked []int
+	r := &resolver.DIDResolverRouter{}
+	for i, g := range op.Regs {
+		r.Register(wunhx(g.M), wStub{out: g.Out, idx: i, asked: &asked})
+	}
+	doc, _, err := r.Resolve(did.DID{Method: wunhx(op.M), ID: "router.example"}, nil)
+	if errors.Is(err, resolver.ErrDIDMethodNotSupported) && len(asked) == 0 {
+		return "router unsupported"
+	}
+	res := wStubResult(doc, err, nil)
+	return fmt.Sprintf("router %s asked=%s", strings.Split(res, " ")[0], strings.ReplaceAll(fmt.Sprint(asked), " ", ","))
+}
+
+func wChainOps(r *rand.Rand, n int) []wOp {
+	var ops []wOp
+	outs := []string{"nf", "nf", "nf", "nfw", "nfw", "ok", "ok", "deact", "deactw", "noctl", "err", "unsup"}
+	methods := []string{"web", "web", "web", "WEB", "Web", "web ", "jwk", "nuts", ""}
+	for k := 0; k < n; k++ {
+		if r.Intn(3) != 0 {
+			op := wOp{Op: "chain", Tag: "chain"}
+			for l := r.Intn(5); l > 0; l-- { // a run of members that do not know the DID first
+				op.Outs = append(op.Outs, []string{"nf", "nfw"}[r.Intn(2)])
+			}
+			for l := r.Intn(4); l > 0; l-- {
+				op.Outs = append(op.Outs, outs[r.Intn(len(outs))])
+			}
+			ops = append(ops, op)
+			continue
+		}
+		op := wOp{Op: "router", Tag: "router", M: whx(methods[r.Intn(len(methods))])}
+		for l := r.Intn(6); l > 0; l-- {
+			op.Regs = append(op.Regs, wReg{M: whx(methods[r.Intn(len(methods))]), Out: []string{"ok", "ok", "nf", "deact", "err"}[r.Intn(5)]})
+		}
+		ops = append(ops, op)
+	}
+	return ops
 }
